@@ -600,6 +600,23 @@ static void build(vf::Plan &plan, const vf::Opts &o)
                               });
         st.case_timeout_s = 10;
     }
+    {
+        auto cases = std::make_shared<std::vector<lp::LN>>(lp::cases_very_long());
+        auto &st = plan.stage("before/after:very long separators: lengths {255,256,257,258,300,1030}, one byte perturbed at positions next to the ends, the middle and 254..257",
+                              cases->size(),
+                              [cases](uint64_t i, Ctx &c) {
+                                  std::string text, sep;
+                                  lp::make((*cases)[i], text, sep);
+                                  check_sides(c, text, sep);
+                                  c.nontrivial();
+                              },
+                              [cases](uint64_t i) {
+                                  std::string text, sep;
+                                  lp::make((*cases)[i], text, sep);
+                                  return strf("s=%s sep=%s", vf::vis(text.substr(0, 60)).c_str(), vf::vis(sep.substr(0, 60)).c_str());
+                              });
+        st.case_timeout_s = 20;
+    }
     // ---- separators / character sets that point into the subject's own storage: same result as for a separate copy
     if (!reduced) {
         const std::string AA("abA:\0", 5);
